@@ -137,3 +137,78 @@ def refute_search(mod, proof, violations, ix, workdir, seed):
 
 
 refuters = {p.name: refute_search for p in proofs}
+
+
+# ---------------------------------------------------------------------------------------------
+# header round trip over the real ToHeader / FromHeader bodies (bounded stand-in: one member, one-byte key and value, every printable byte)
+def _sb_append(em, recv, args, n):
+    real = [a for a in args if a.get("kind") != "CXXDefaultArgExpr"]
+    if len(real) == 2:
+        return "xc_sb_append(&(%s), %s, %s)" % (recv, em.expr(real[0]), em.expr(real[1]))
+    t = em.ctype(real[0]["type"])
+    if t.base == "xc_sb":
+        return "({ xc_sb xc_t = %s; xc_sb_append(&(%s), xc_t.data, xc_t.len); })" % (em.expr(real[0]), recv)
+    raise common.ExtractionError("std::string::append(%s)" % t.text())
+
+
+def _configure_hdr(cfg):
+    common.kv_boundary(cfg)
+    common.strbuild_boundary(cfg)
+    for n in ("std::basic_string", "std::__cxx11::basic_string"):
+        cfg.ext_methods[n + "::append"] = _sb_append
+        cfg.ext_methods[n + "::empty"] = lambda em, recv, args, n: "(%s.len == 0)" % recv
+        cfg.ext_methods[n + "::size"] = lambda em, recv, args, n: "%s.len" % recv
+        cfg.ext_methods[n + "::data"] = lambda em, recv, args, n: "%s.data" % recv
+    # function-local static shared_ptr of GetDefault(): one empty baggage, created by the harness
+    cfg.ext_q["KeyValueStringTokenizer::GetDefaultKeyOrValue"] = lambda em, node, recv, args: "((string_view){.data_ = \"\", .length_ = 0})"   # static std::string default_str = ""
+    cfg.ext_q["Baggage::GetDefault"] = lambda em, node, recv, args: "xc_Baggage_GetDefault_ptr()"
+
+
+H_SPEC = r"""
+static char xc_hexd(unsigned v) { return (char)(v < 10 ? '0' + v : 'A' + (v - 10)); }
+/* the header form of one byte: token characters as they are, blank as '+', everything else %XX */
+static size_t xc_enc1(char c, char *out) { if (PLAIN(c)) { out[0] = c; return 1; } if (c == ' ') { out[0] = '+'; return 1; } out[0] = '%'; out[1] = xc_hexd(((unsigned char)c) >> 4); out[2] = xc_hexd(((unsigned char)c) & 15); return 3; }
+"""
+H_FROM = H_SPEC + r"""
+void h_FromHeader_member_bounded(void)
+{
+  char kc, vc; xc_havoc_ghosts();
+  __CPROVER_assume(PRINTABLE(kc) && PRINTABLE(vc) && vc != ';');
+  g_default_b = XC_NEW(Baggage, Baggage_ctor_0());
+  char h[7]; size_t n = xc_enc1(kc, h); h[n++] = '='; n += xc_enc1(vc, h + n);
+  string_view hv = {.data_ = h, .length_ = n};
+  Baggage *r = Baggage_FromHeader(hv);
+  __CPROVER_assert(r->kv_properties_.ptr_->num_entries_ == 1, "extraction of a well-formed one-member header yields one member");
+  const Entry *e = &r->kv_properties_.ptr_->entries_.ptr_[0];
+  __CPROVER_assert(e->key_.ptr_[0] == kc && e->key_.ptr_[1] == 0, "the key is decoded back (characters outside the token set are percent-encoded, blank as '+')");
+  __CPROVER_assert(e->value_.ptr_[0] == vc && e->value_.ptr_[1] == 0, "the value is decoded back");
+  __CPROVER_assert(0, "XC_CANARY end of harness reachable");
+}
+"""
+H_TO = H_SPEC + r"""
+void h_ToHeader_member_bounded(void)
+{
+  char kc, vc; xc_havoc_ghosts();
+  __CPROVER_assume(PRINTABLE(kc) && PRINTABLE(vc) && vc != ';');
+  string_view k = {.data_ = &kc, .length_ = 1}, v = {.data_ = &vc, .length_ = 1};
+  Baggage *b = XC_NEW(Baggage, Baggage_ctor_1_size_t(1));
+  KeyValueProperties_AddEntry(b->kv_properties_.ptr_, k, v);
+  xc_sb h = Baggage_ToHeader(b);
+  char want[7]; size_t n = xc_enc1(kc, want); want[n++] = '='; n += xc_enc1(vc, want + n);
+  __CPROVER_assert(h.len == n, "injection writes key=value in header form (length)");
+  size_t i; __CPROVER_assume(i < n);
+  __CPROVER_assert(h.data[i] == want[i], "injection writes key=value in header form (bytes)");
+  __CPROVER_assert(0, "XC_CANARY end of harness reachable");
+}
+"""
+BNH = "one member, one-byte key and one-byte value over every printable byte (value not ';'); everything inlined, full unwinding; the header form is given by an independent per-byte encoder in the harness"
+_pf = Proof("FromHeader_member_bounded", [("Baggage::FromHeader", 1), ("Baggage::Baggage", 0)], harness=H_FROM, loop_contracts=False, unwind=9, level="bounded",
+            configure=_configure_hdr, timeout=900, bound_note=BNH, desc="FromHeader(header form of (k, v)) == (k, v)")
+_pt = Proof("ToHeader_member_bounded", [("Baggage::ToHeader", 0), ("KeyValueProperties::AddEntry", 2), ("Baggage::Baggage", 1, "(size_t)")], harness=H_TO, loop_contracts=False,
+            unwind=5, level="bounded", configure=_configure_hdr, timeout=900, bound_note=BNH, desc="ToHeader(b) == header form of (k, v)")
+for _ph in (_pf, _pt):
+    _ph.defines_c = "#define XC_SB_CAP 8\n"
+    _ph.post_struct_c = "Baggage *g_default_b;\nstatic Baggage *xc_Baggage_GetDefault_ptr(void) { return g_default_b; }\n"
+    proofs.append(_ph)
+    refuters[_ph.name] = refute_search
+
